@@ -14,7 +14,7 @@ func init() {
 	register(&propDef{
 		ID:      "C15",
 		Level:   "other",
-		Explain: "Configuration loading, decided structurally; sites are found by what they do (calls of the flag / strings / properties API, fields of config.Config, the set-map of config.FlagSet) inside the region of an exported entry point (config.Load, config.FlagSet.ParseFlags, HTTPProxy.ServeHTTP), never by the name of an unexported function or variable. (R1) for every flag definition flag.FlagSet.<T>Var(&v, name, default, usage) in package config - also inside wrappers (methods of config.FlagSet, local closures, extracted helpers: expanded per call) - v is a field path P of the Config being filled and the default is the same path P of the default configuration (exceptions are a frozen, reasoned table keyed by flag name); options parsed into a local take the field of the defaults table that belongs to that local; no two flags bind the same variable, and no two flag names collide case-insensitively (the environment lookup upper-cases them); (R2) in FlagSet.ParseFlags the command line is parsed before the flags it set are marked (Visit) and that before the fallback pass (VisitAll); every assignment of a fallback value (flag.FlagSet.Set / flag.Value.Set anywhere in the region of ParseFlags: in the VisitAll callback, or in a later pass such as a loop over the keys of the properties, which must then follow the pass over the environment) is under the test that the flag is not yet marked, under the presence bit of the source the value comes from (comma-ok of the environment map, second result of Properties.Get, possibly handed on through helper results; a key taken from Properties.Keys() is present by construction) and not under a test of the value itself; every assignment is accompanied by marking the flag; no assignment can follow another one; the properties are not consulted before the environment, and their value becomes the assigned one only on paths that left a test of the environment's presence bit on its false edge; (R3) the callers of ParseFlags pass the prefixes [\"FABIO_\", \"\"] in that order, the environment map is keyed by the case-normalised complete variable name and consulted under normalise(prefix + Replace(name, \".\", \"_\")) with the same normalisation; (P*) partial operations reachable from config.Load (Split/SplitN indices, slice bounds from Index*) are guarded; (V1) every int option that flows into an allocation size, channel capacity or status code is compared with a constant somewhere in the loading region, the failing outcome inevitably returns an error, the test dominates every successful return (it is not conditional on another option) and the error is handed on up to config.Load - or the value is clamped at the sink; (V2) values built from configuration at start-up are not used on the path on which their constructor's error was observed and only logged; (V3) enumerated options are validated raw (equality tests, switch, slices.Contains / set literal / helper given a literal list) against exactly the keys of the registries they index. Not decided: equality of the resulting Config across sources for every value of every type (behaviour of flag.Value.Set per type; R2 shows all sources use it).",
+		Explain: "Configuration loading, decided structurally; sites are found by what they do (calls of the flag / strings / properties API, fields of config.Config, the set-map of config.FlagSet) inside the region of an exported entry point (config.Load, config.FlagSet.ParseFlags, HTTPProxy.ServeHTTP), never by the name of an unexported function or variable. (R1) for every flag definition flag.FlagSet.<T>Var(&v, name, default, usage) in package config - also inside wrappers (methods of config.FlagSet, local closures, extracted helpers: expanded per call; a loop over a table of descriptors - a slice / array literal of rows with constant names, pointers or accessor functions: expanded per row; a struct-typed flag.Value: the pointer it keeps) - v is a field path P of the Config being filled and the default is the same path P of the default configuration (exceptions are a frozen, reasoned table keyed by flag name); options parsed into a local take the field of the defaults table that belongs to that local; no two flags bind the same variable, and no two flag names collide case-insensitively (the environment lookup upper-cases them); (R2) in FlagSet.ParseFlags the command line is parsed before the flags it set are marked (Visit) and that before the fallback pass (VisitAll); every assignment of a fallback value (flag.FlagSet.Set / flag.Value.Set anywhere in the region of ParseFlags: in the VisitAll callback, or in a later pass such as a loop over the keys of the properties, which must then follow the pass over the environment) is under the test that the flag is not yet marked, under the presence bit of the source the value comes from (comma-ok of the environment map, second result of Properties.Get, possibly handed on through helper results; a key taken from Properties.Keys() is present by construction) and not under a test of the value itself; every assignment is accompanied by marking the flag; no assignment can follow another one; the properties are not consulted before the environment, and their value becomes the assigned one only on paths that left a test of the environment's presence bit on its false edge; when the sources are consulted through one dynamic call (a method of an interface declared in the repository, a function taken from a list of lookup functions - resolved by following the receiver / function value back to the conversions and function values it is made from) the list the callee is taken from must hold the environment source(s) before the properties in every alternative it can be, be walked forwards, and no further source may be consulted once one has reported a value; (R3) the callers of ParseFlags pass the prefixes [\"FABIO_\", \"\"] in that order, the environment map is keyed by the case-normalised complete variable name and consulted under normalise(prefix + Replace(name, \".\", \"_\")) with the same normalisation; (P*) partial operations reachable from config.Load (Split/SplitN indices, slice bounds from Index*) are guarded; (V1) every int option that flows into an allocation size, channel capacity or status code is compared with a constant somewhere in the loading region, the failing outcome inevitably returns an error, the test dominates every successful return (it is not conditional on another option) and the error is handed on up to config.Load - or the value is clamped at the sink; (V2) values built from configuration at start-up are not used on the path on which their constructor's error was observed and only logged; (V3) enumerated options are validated raw (equality tests, switch, slices.Contains / set literal / helper given a literal list) against exactly the keys of the registries they index. Not decided: equality of the resulting Config across sources for every value of every type (behaviour of flag.Value.Set per type; R2 shows all sources use it).",
 		Run:     runC15,
 		Trusted: []string{"package flag: Visit visits flags set on the command line, VisitAll all flags, Set goes through flag.Value.Set", "magiconair/properties.Get"},
 		Mutants: append([]mutant{
@@ -34,8 +34,23 @@ func init() {
 			{Name: "consul cert source continues after a failed setup", File: "cert/consul_source.go", Old: "\t\tlog.Printf(\"[ERROR] cert: Failed to create consul client. %s\", err)\n\t\treturn nil", New: "\t\tlog.Printf(\"[ERROR] cert: Failed to create consul client. %s\", err)", Expect: "C15.V2"},
 			{Name: "strategy validated case-insensitively", File: "config/load.go", Old: "if cfg.Proxy.Strategy != \"rr\" && cfg.Proxy.Strategy != \"rnd\" {", New: "if s := strings.ToLower(cfg.Proxy.Strategy); s != \"rr\" && s != \"rnd\" {", Expect: "C15.V3"},
 			{Name: "benign: registration reordered", File: "config/load.go", Old: "\tf.BoolVar(&cfg.Insecure, \"insecure\", defaultConfig.Insecure, \"allow fabio to run as root when set to true\")\n\tf.IntVar(&cfg.Proxy.MaxConn, \"proxy.maxconn\", defaultConfig.Proxy.MaxConn, \"maximum number of cached connections\")", New: "\tf.IntVar(&cfg.Proxy.MaxConn, \"proxy.maxconn\", defaultConfig.Proxy.MaxConn, \"maximum number of cached connections\")\n\tf.BoolVar(&cfg.Insecure, \"insecure\", defaultConfig.Insecure, \"allow fabio to run as root when set to true\")", Expect: ""},
-		}, append(append([]mutant{}, c15MoreMutants...), c15round4R2Mutants...)...),
+		}, append(append(append([]mutant{}, c15MoreMutants...), c15round4R2Mutants...), c15round5Mutants...)...),
 	})
+}
+
+func init() {
+	// development aid: C15_MUTANTS=<substring> restricts `verifcheck mutants C15` to the mutants whose name contains it
+	if sub := os.Getenv("C15_MUTANTS"); sub != "" {
+		if p := props["C15"]; p != nil {
+			var keep []mutant
+			for _, m := range p.Mutants {
+				if strings.Contains(m.Name, sub) {
+					keep = append(keep, m)
+				}
+			}
+			p.Mutants = keep
+		}
+	}
 }
 
 // frozen exceptions of R1: flag name -> reason. Flag names are the user-visible interface of fabio, so they are a
@@ -48,6 +63,7 @@ var c15DefaultExceptions = map[string]string{
 }
 
 func runC15(c *Ctx) {
+	c15use(c)
 	runC15R1(c)
 	runC15R2(c)
 	runC15R3(c)
@@ -112,6 +128,50 @@ func c15isConfigType(t types.Type) bool { return namedIs(t, "config.Config") }
 type c15resolver struct {
 	sites      c15siteIndex
 	needCaller *ssa.Function
+	// registrations driven by a table (a loop over a slice / array literal of descriptors): rows binds an element of
+	// the table to the values one row of the literal stores into its fields; needTable is an element met unbound
+	rows      map[c15elemKey]map[int]ssa.Value
+	needTable ssa.Value
+}
+
+// rowValue: v reads a field of a table element; the value the bound row stores there (nil when the row leaves the
+// field at its zero value, or when the element is not bound yet - needTable is then set).
+func (r *c15resolver) rowValue(v ssa.Value) (val ssa.Value, isRow bool) {
+	elem, field, ok := c15rowAccess(v)
+	if !ok {
+		return nil, false
+	}
+	key, ok := c15elemKeyOf(elem)
+	if !ok {
+		return nil, false
+	}
+	row, bound := r.rows[key]
+	if !bound {
+		r.needTable = elem
+		return nil, true
+	}
+	return row[field], true
+}
+
+// calleesOf: the functions a call can enter - c15callees, or the function a bound table row keeps in the field the
+// callee is read from.
+func (r *c15resolver) calleesOf(call *ssa.Call) []*ssa.Function {
+	if gs := c15callees(&call.Call); len(gs) > 0 {
+		return gs
+	}
+	if call.Call.IsInvoke() {
+		return nil
+	}
+	if val, isRow := r.rowValue(call.Call.Value); isRow && val != nil {
+		var out []*ssa.Function
+		for _, g := range c15funcsOf(val) {
+			if isRepoFn(g) && len(g.Blocks) > 0 {
+				out = append(out, g)
+			}
+		}
+		return out
+	}
+	return nil
 }
 
 func (r *c15resolver) path(v ssa.Value, ctx []ssa.CallInstruction, depth int) c15path {
@@ -139,6 +199,12 @@ func (r *c15resolver) path(v ssa.Value, ctx []ssa.CallInstruction, depth int) c1
 			return c15path{kind: "local", root: name, id: a}
 		}
 		return other
+	}
+	if val, isRow := r.rowValue(v); isRow {
+		if val == nil {
+			return other
+		}
+		return r.path(val, ctx, depth+1)
 	}
 	switch x := v.(type) {
 	case *ssa.FieldAddr:
@@ -195,8 +261,28 @@ func (r *c15resolver) path(v ssa.Value, ctx []ssa.CallInstruction, depth int) c1
 				idx = k
 			}
 		}
+		// a call on top of ctx that entered a closure nested in fn (an accessor closure reading a variable of fn): the
+		// frame of fn itself is further out
+		for len(ctx) > 0 {
+			top, isCall := ctx[len(ctx)-1].(*ssa.Call)
+			if !isCall {
+				break
+			}
+			nested := false
+			for _, g := range r.calleesOf(top) {
+				for p := g.Parent(); p != nil; p = p.Parent() {
+					if p == fn && g != fn {
+						nested = true
+					}
+				}
+			}
+			if !nested {
+				break
+			}
+			ctx = ctx[:len(ctx)-1]
+		}
 		if n := len(ctx); n > 0 {
-			if args := ctx[n-1].Common().Args; idx >= 0 && idx < len(args) {
+			if args := ctx[n-1].Common().Args; idx >= 0 && idx < len(args) && !ctx[n-1].Common().IsInvoke() {
 				return r.path(args[idx], ctx[:n-1], depth+1)
 			}
 			return other
@@ -212,6 +298,30 @@ func (r *c15resolver) path(v ssa.Value, ctx []ssa.CallInstruction, depth int) c1
 	case *ssa.Call:
 		if c15isConfigType(x.Type()) {
 			return c15path{kind: "cfg", root: "cfg", id: x}
+		}
+		// a copy of a slice is that slice as far as the table of defaults is concerned
+		switch calleeName(&x.Call) {
+		case "builtin.append":
+			if len(x.Call.Args) == 2 && c15fresh(x.Call.Args[0], 0) {
+				return r.path(x.Call.Args[1], ctx, depth+1)
+			}
+		case "slices.Clone", "bytes.Clone", "maps.Clone", "strings.Clone":
+			if len(x.Call.Args) == 1 {
+				return r.path(x.Call.Args[0], ctx, depth+1)
+			}
+		}
+		// an accessor (a helper, a closure, a function kept in a table row) that returns the variable or its address:
+		// what its single return hands back, with its parameters replaced by the arguments of this call
+		if gs := r.calleesOf(x); len(gs) == 1 && !x.Call.IsInvoke() {
+			var rets []*ssa.Return
+			eachInstr(gs[0], func(i ssa.Instruction) {
+				if ret, ok := i.(*ssa.Return); ok {
+					rets = append(rets, ret)
+				}
+			})
+			if len(rets) == 1 && len(rets[0].Results) == 1 {
+				return r.path(rets[0].Results[0], append(append([]ssa.CallInstruction{}, ctx...), x), depth+1)
+			}
 		}
 	case *ssa.Extract:
 		if c15isConfigType(x.Type()) {
@@ -251,8 +361,20 @@ func c15valueCtor(v ssa.Value) (ptr, def ssa.Value) {
 	}
 	call, ok := v.(*ssa.Call)
 	if !ok {
+		a, isAlloc := v.(*ssa.Alloc)
+		if u, isLoad := v.(*ssa.UnOp); isLoad && u.Op == token.MUL {
+			a, isAlloc = u.X.(*ssa.Alloc) // (a struct value with value receivers)
+		}
+		if isAlloc {
+			// the flag.Value is a struct literal built in place (&T{dst: p}): the variable is the pointer it keeps
+			if inner := c15keptPointer(a); inner != nil {
+				return inner, c15storedDefault(inner)
+			}
+		}
 		if _, isPtr := v.Type().Underlying().(*types.Pointer); isPtr {
-			return v, nil
+			// the pointer itself, converted to the flag.Value type; the default is what the constructor's inlined body
+			// stores through it (*p = value) before the definition
+			return v, c15storedDefault(v)
 		}
 		return nil, nil
 	}
@@ -268,18 +390,70 @@ func c15valueCtor(v ssa.Value) (ptr, def ssa.Value) {
 	return nil, nil
 }
 
+// c15keptPointer: the single pointer stored into a field of the struct literal a (the variable a struct-typed
+// flag.Value writes to); nil when a is not a struct, keeps no pointer or keeps several.
+func c15keptPointer(a *ssa.Alloc) ssa.Value {
+	pt, ok := a.Type().(*types.Pointer)
+	if !ok || a.Referrers() == nil {
+		return nil
+	}
+	if _, isStruct := pt.Elem().Underlying().(*types.Struct); !isStruct {
+		return nil
+	}
+	var kept []ssa.Value
+	for _, r := range *a.Referrers() {
+		fa, isFA := r.(*ssa.FieldAddr)
+		if !isFA || fa.Referrers() == nil {
+			continue
+		}
+		for _, r2 := range *fa.Referrers() {
+			if st, isSt := r2.(*ssa.Store); isSt && st.Addr == ssa.Value(fa) {
+				if _, isPtr := st.Val.Type().Underlying().(*types.Pointer); isPtr && !isNilConst(st.Val) {
+					kept = append(kept, st.Val)
+				}
+			}
+		}
+	}
+	if len(kept) != 1 {
+		return nil
+	}
+	return kept[0]
+}
+
+// c15storedDefault: the single value the function of ptr stores through ptr itself (*p = value), if any.
+func c15storedDefault(ptr ssa.Value) ssa.Value {
+	refs := ptr.Referrers()
+	if refs == nil {
+		return nil
+	}
+	var vals []ssa.Value
+	for _, r := range *refs {
+		if st, ok := r.(*ssa.Store); ok && st.Addr == ptr {
+			vals = append(vals, st.Val)
+		}
+	}
+	if len(vals) != 1 {
+		return nil
+	}
+	return vals[0]
+}
+
 var c15valueDefiners = map[string]bool{"String": true, "Bool": true, "Int": true, "Int64": true, "Uint": true, "Uint64": true, "Float64": true, "Duration": true, "Func": true, "BoolFunc": true}
 
 // c15registrations finds every definition of a flag in package config: calls of the methods of flag.FlagSet that
 // define one, wherever they are; when they sit in a wrapper (a method of config.FlagSet, a local closure, an
 // extracted helper that gets the pointers as parameters) they are expanded once per call of the wrapper.
 func c15registrations(c *Ctx) []c15reg {
+	c15use(c)
 	fns := c.fnsWhere("config", func(*ssa.Function) bool { return true })
 	sites := c15buildSites(fns)
 	var regs []c15reg
-	var enumerate func(call *ssa.Call, ptrV, nameV, defV ssa.Value, ctx []ssa.CallInstruction)
-	enumerate = func(call *ssa.Call, ptrV, nameV, defV ssa.Value, ctx []ssa.CallInstruction) {
-		r := &c15resolver{sites: sites}
+	var enumerateRows func(call *ssa.Call, ptrV, nameV, defV ssa.Value, ctx []ssa.CallInstruction, rows map[c15elemKey]map[int]ssa.Value)
+	enumerate := func(call *ssa.Call, ptrV, nameV, defV ssa.Value, ctx []ssa.CallInstruction) {
+		enumerateRows(call, ptrV, nameV, defV, ctx, nil)
+	}
+	enumerateRows = func(call *ssa.Call, ptrV, nameV, defV ssa.Value, ctx []ssa.CallInstruction, rows map[c15elemKey]map[int]ssa.Value) {
+		r := &c15resolver{sites: sites, rows: rows}
 		reg := c15reg{pos: call.Pos()}
 		if len(ctx) > 0 {
 			reg.pos = ctx[0].Pos()
@@ -294,10 +468,25 @@ func c15registrations(c *Ctx) []c15reg {
 			reg.hasDef = true
 			reg.def = r.path(defV, ctx, 0)
 		}
+		if r.needTable != nil && len(rows) < 2 {
+			// the definition sits in a loop over a table of descriptors: once per row of the table's literal
+			if key, ok := c15elemKeyOf(r.needTable); ok {
+				if tbl := c15tableRows(c, r.needTable); len(tbl) > 0 {
+					for _, row := range tbl {
+						bound := map[c15elemKey]map[int]ssa.Value{key: row}
+						for k, v := range rows {
+							bound[k] = v
+						}
+						enumerateRows(call, ptrV, nameV, defV, ctx, bound)
+					}
+					return
+				}
+			}
+		}
 		if r.needCaller != nil && len(ctx) < 3 {
 			for _, s := range sites[r.needCaller] {
 				if ci, ok := s.(ssa.CallInstruction); ok {
-					enumerate(call, ptrV, nameV, defV, append([]ssa.CallInstruction{ci}, ctx...))
+					enumerateRows(call, ptrV, nameV, defV, append([]ssa.CallInstruction{ci}, ctx...), rows)
 				}
 			}
 			return
